@@ -28,6 +28,8 @@ ASSUMPTIONS = [
 
 C = impl.CLOCK
 T0 = 1000.0
+# debug only (like VERIF_SRC): signatures to treat as already known while trying mutated sources
+ASSUME_KNOWN = set(filter(None, os.environ.get("VERIF_ASSUME_KNOWN", "").split(",")))
 HERE = os.path.dirname(os.path.dirname(os.path.abspath(__file__)))
 
 
@@ -355,6 +357,9 @@ def run(ctx, out):
             out.disagreements.append({"case": case, "field": d, "impl": {k: tr[k] for k in ("attempts", "waits", "cbs", "acts", "ret")},
                                       "model": m})
         for sig, text in oracle(case, tr):
+            if sig in ASSUME_KNOWN:
+                out.stat("assumed_known_" + sig)
+                continue
             out.stat("violation_" + sig)
             out.violations.append({"case": case, "what": text, "signature": sig,
                                    "impl": {"attempts": tr["attempts"], "waits": tr["waits"], "ret": tr["ret"]}})
